@@ -10,6 +10,10 @@ handed to the writer (cast with numpy's astype when `dtype` is given).
 Clauses
   C11.roundtrip_path     by name: bit-identical values, stored dtype, shape (time x channels for audio)
   C11.roundtrip_stream   same from an open stream with force_as
+  C11.stream_position    an open stream is read from its CURRENT position: the payload is written after another
+                         payload of the same family (different shape / width) or after junk bytes, in ONE stream
+                         (BytesIO and a real file opened 'rb'), the stream is positioned on the start of the
+                         payload and must give that payload bit-identically (also with dtype / key)
   C11.final_cast         `dtype` given -> result == stored.astype(dtype), dtype exactly as requested
                          (soundfile containers: integers are NOT rescaled to +-1 when a float is asked)
   C11.key_selects        `key` selects the named entry (npz, hdf5); default entry arr_0 / depth-first first
@@ -337,6 +341,142 @@ def check_roundtrip(case, tmpdir, util, prepared=None):
 
 
 # ----------------------------------------------------------------------------------------------
+# streams that are not at position 0
+# ----------------------------------------------------------------------------------------------
+# flac: libsndfile's FLAC decoder addresses its virtual-io stream absolutely (it seeks to byte 0 on open), and HDF5
+# addresses the file by absolute offsets from the superblock at byte 0 (h5py's file-object driver): neither can be
+# handed a stream positioned inside a larger one -- on HEAD flac/hdf5 return the FIRST payload of the stream or raise
+# on a junk prefix. Every other reader (wave, libsndfile wav/aiff, np.load for npy, zipfile for npz -- which locates
+# the archive from the END of the stream --, torch.load, np.fromfile, the SPHERE reader) honours the position.
+OFFSET_UNSUPPORTED = ("flac16", "hdf5_nested", "hdf5_flat", "hdf5_root_first", "hdf5_empty_groups")
+OFFSET_SHAPES = {False: ((9, 3), (12,), (1,)), True: ((12,), (1,))}  # keyed by one_d_only
+OFFSET_PREFIX_SHAPES = {False: (5, 2), True: (7,)}
+
+
+def offset_prefix_container(cont: Container) -> Container:
+    """The payload that sits in front: the next container variant with the same suffix (so a 16-bit wav is preceded
+    by a 32-bit one written by the other writer, npz by compressed npz, sph01 by sph10, ...)."""
+    fam = [c for c in CONTAINERS if c.suffix == cont.suffix and c.name not in OFFSET_UNSUPPORTED]
+    return fam[(fam.index(cont) + 1) % len(fam)]
+
+
+def junk_bytes(seed: int, length: int) -> bytes:
+    return _common.make_rng(seed, "c11junk:%d" % length).integers(0, 256, size=length, dtype=np.uint8).tobytes()
+
+
+def offset_prepare(case, tmpdir):
+    """-> (arrs of the payload under test, bytes of the whole stream, offset of the payload) or None when a
+    container's own reader cannot hold one of the shapes."""
+    cont = CONT[case["container"]]
+    arrs = arrays_for(cont, tuple(case["shape"]), case["sdtype"], case.get("range", "full"), case["seed"])
+    p = os.path.join(tmpdir, "off_payload" + cont.suffix)
+    if not write_container(cont, p, arrs):
+        return None
+    with open(p, "rb") as f:
+        payload = f.read()
+    os.remove(p)
+    pre = case["prefix"]
+    if pre["kind"] == "junk":
+        prefix = junk_bytes(case["seed"], int(pre["length"]))
+    elif pre["kind"] == "payload":
+        pc = CONT[pre["container"]]
+        parrs = arrays_for(pc, tuple(pre["shape"]), pre["sdtype"], "full", case["seed"] + 7919)
+        p = os.path.join(tmpdir, "off_prefix" + pc.suffix)
+        if not write_container(pc, p, parrs):
+            return None
+        with open(p, "rb") as f:
+            prefix = f.read()
+        os.remove(p)
+    else:
+        raise ValueError(pre["kind"])
+    return arrs, prefix + payload, len(prefix)
+
+
+def check_offset(case, tmpdir, util, prepared=None):
+    cont = CONT[case["container"]]
+    clause = "C11.stream_position"
+    if prepared is None:
+        prepared = offset_prepare(case, tmpdir)
+        if prepared is None:
+            return [(clause, "container's own reader cannot read this shape back (case should have been skipped)")]
+    arrs, blob, off = prepared
+    label = dict(key_table(cont)).get(case.get("key"), None) if cont.keyed else "A"
+    if label is None:
+        return [("C11.key_selects", "unknown key %r in case" % case.get("key"))]
+    exp = arrs[label]
+    kw = {}
+    if case.get("dtype") is not None:
+        kw["dtype"] = np.dtype(case["dtype"])
+        if not cont.needs_dtype:
+            with warnings.catch_warnings():
+                warnings.simplefilter("ignore")
+                exp = exp.astype(case["dtype"])
+    if case.get("key") is not None:
+        kw["key"] = case["key"]
+    path = None
+    try:
+        with warnings.catch_warnings():
+            warnings.simplefilter("ignore")
+            if case["via"] == "bytesio":
+                s = io.BytesIO(blob)
+                s.seek(off)
+                out = util.read_signal(s, force_as=case["force_as"], **kw)
+            elif case["via"] == "file":
+                path = os.path.join(tmpdir, "off_stream.bin")
+                with open(path, "wb") as f:
+                    f.write(blob)
+                with open(path, "rb") as s:
+                    s.seek(off)
+                    out = util.read_signal(s, force_as=case["force_as"], **kw)
+            else:
+                raise ValueError(case["via"])
+    except Exception as e:  # noqa
+        return [(clause, "stream positioned at byte %d of %d: raised %s: %s" % (off, len(blob), type(e).__name__, e))]
+    finally:
+        if path is not None and os.path.exists(path):
+            os.remove(path)
+    return [(c, "stream positioned at byte %d of %d: %s" % (off, len(blob), m)) for c, m in compare(out, exp, clause)]
+
+
+def enumerate_offsets(tier, seed):
+    """Yield (base case, cases sharing one stream content)."""
+    quick = tier == "quick"
+    for cont in CONTAINERS:
+        if cont.name in OFFSET_UNSUPPORTED:
+            continue
+        pc = offset_prefix_container(cont)
+        for shape in OFFSET_SHAPES[cont.one_d_only]:
+            if not shape_ok(cont, shape):
+                continue
+            for si, sdtype in enumerate(cont.sdtypes):
+                if quick and shape != OFFSET_SHAPES[cont.one_d_only][0] and si > 0:
+                    continue
+                prefixes = [dict(kind="payload", container=pc.name, shape=list(OFFSET_PREFIX_SHAPES[cont.one_d_only]), sdtype=pc.sdtypes[-1 - si % len(pc.sdtypes)]),
+                            dict(kind="junk", length=[1, 44, 1000, 1024, 37][(si + len(shape) + shape[0]) % 5])]
+                if not quick:
+                    prefixes += [dict(kind="junk", length=n) for n in (1, 2, 1024, 4096, 16384 + 3)]
+                for pre in prefixes:
+                    base = dict(kind="offset", container=cont.name, shape=list(shape), sdtype=sdtype, range="full", seed=seed, prefix=pre)
+                    cases = []
+                    for fa in cont.stream_force:
+                        for via in ("bytesio", "file"):
+                            if fa == "file" and via == "bytesio":
+                                continue  # np.fromfile needs a real file object
+                            dts = [sdtype] if cont.needs_dtype else [None, "float64"]
+                            for dt in dts:
+                                for key, _lab in key_table(cont):
+                                    if dt is not None and key is not None and not cont.needs_dtype:
+                                        continue
+                                    c = dict(base, via=via, force_as=fa)
+                                    if dt is not None:
+                                        c["dtype"] = dt
+                                    if key is not None:
+                                        c["key"] = key
+                                    cases.append(c)
+                    yield base, cases
+
+
+# ----------------------------------------------------------------------------------------------
 # error clauses
 # ----------------------------------------------------------------------------------------------
 BAD_NAMES = ("noext", "sig.txt", "sig.raw", "sig.bin", "sig.wavx", "sig.npy.bak", "sig.mp3", "sig.npy ", "npy", "sig.", "sig.pth",
@@ -517,6 +657,8 @@ def check_case(case, tmpdir, util, prepared=None):
     kind = case["kind"]
     if kind in ("roundtrip", "infer"):
         return check_roundtrip(case, tmpdir, util, prepared)
+    if kind == "offset":
+        return check_offset(case, tmpdir, util, prepared)
     if kind == "error":
         return check_error(case, tmpdir, util)
     if kind == "wds":
@@ -697,8 +839,20 @@ def run(tier: str, seed: int) -> dict:
             rest_first = None
         for c in cheap:
             account(c, check_case(c, tmpdir, util))
-        for base, cases in enumerate_groups(tier, seed):
+        for base, cases in enumerate_offsets(tier, seed):
             if col.out_of_time() or col.too_many_failures():
+                stop = True
+                break
+            prepared = offset_prepare(base, tmpdir)
+            if prepared is None:
+                skipped.append("%s%s@offset" % (base["container"], tuple(base["shape"])))
+                continue
+            cont = CONT[base["container"]]
+            for c in cases:
+                lab = dict(key_table(cont)).get(c.get("key"), "A")
+                account(c, check_case(c, tmpdir, util, prepared=prepared), nontrivial=prepared[0][lab].size > 0 and prepared[2] > 0)
+        for base, cases in enumerate_groups(tier, seed):
+            if stop or col.out_of_time() or col.too_many_failures():
                 stop = True
                 break
             cont = CONT[base["container"]]
@@ -736,6 +890,12 @@ def run(tier: str, seed: int) -> dict:
         shutil.rmtree(tmpdir, ignore_errors=True)
     col.note("cases: " + ", ".join("%s=%d" % kv for kv in sorted(per.items()) if ":" not in kv[0]))
     col.note("round-trip cases per container: " + ", ".join("%s=%d" % (k.split(":")[1], v) for k, v in sorted(per.items()) if k.startswith("roundtrip:")))
+    col.note("stream-position cases per container: " + ", ".join("%s=%d" % (k.split(":")[1], v) for k, v in sorted(per.items()) if k.startswith("offset:")))
+    col.note("C11.stream_position is NOT run for %s: libsndfile's FLAC decoder and libhdf5 (h5py file-object driver) address the stream absolutely from byte 0, "
+             "so on HEAD a flac/hdf5 payload that follows another one in the same stream reads back as the FIRST payload and a junk prefix raises; read_signal passes the "
+             "stream through unchanged, i.e. these two containers need a stream that starts at the payload. npz works at an offset only because zipfile locates the archive "
+             "from the END of the stream (the payload under test is always the last thing in the stream); raw reads to EOF, so the expected value is the second payload only" % (
+                 ", ".join(OFFSET_UNSUPPORTED),))
     col.note("shapes skipped because the container's own reader cannot give them back: %s; SPHERE (0,) skipped (a zero sample_count is rejected as a missing field, see C12); "
              "raw holds 1-d only and needs dtype to interpret the bytes; np.fromfile needs a real file object, so raw has no BytesIO path; "
              "bit-flipped HDF5 bytes are not fed to wds_read_signal (libhdf5 may abort the process)" % (sorted(set(skipped)) or "none"))
@@ -744,7 +904,8 @@ def run(tier: str, seed: int) -> dict:
              "error and wds clauses); a round-trip case is non-trivial when the expected array is non-empty, every error / wds case counts",
         bound="17 container variants (wav 16/32 by soundfile and by wave, flac16, aiff16, npy, npz plain/compressed 3 entries, pt, hdf5 in 4 group layouts, raw, "
               "sph both byte orders) x shapes {(0,),(1,),(7,),(100,),(5,2),(64,3)} + %d seeded random shapes x stored dtypes x {name, name+force_as, open file, BytesIO} x "
-              "dtype {None,f32,f64,i16 (in-range data)} x every key; 19 suffix-less names, 12 unknown force_as; wds: valid bytes of 11 containers x 3 key styles, "
+              "dtype {None,f32,f64,i16 (in-range data)} x every key; streams positioned off byte 0: 12 container variants (all but flac/hdf5) x shapes {(9,3),(12,),(1,)} x "
+              "{after another payload of the same family, after 1..1024 junk bytes} x {open file, BytesIO} x force_as x dtype {None,f64} x every key; 19 suffix-less names, 12 unknown force_as; wds: valid bytes of 11 containers x 3 key styles, "
               "%s random byte strings x %d suffixes, 13 magic prefixes + garbage, 12 truncations and bit flips of each valid file" % (
                   2 if tier == "quick" else 16, "300" if tier == "quick" else "1500", 9 if tier == "quick" else len(WDS_SUFFIXES)),
         assumptions=["A-IO-CONTAINER", "A-IO-STREAM"],
@@ -762,6 +923,11 @@ def replay(case: dict):
         if case.get("kind") in ("roundtrip", "infer"):
             case.setdefault("range", "full")
             case.setdefault("via", "path")
+        if case.get("kind") == "offset":
+            case.setdefault("range", "full")
+            case.setdefault("via", "bytesio")
+            case.setdefault("prefix", {"kind": "junk", "length": 44})
+            case.setdefault("force_as", CONT[case["container"]].stream_force[0])
         fails = check_case(case, tmpdir, util)
     finally:
         shutil.rmtree(tmpdir, ignore_errors=True)
